@@ -4,7 +4,7 @@ CONSTANTS
   Offsets <- MCOffsets
   EmitYears = {1970, 1999, 2000, 2024, 2038, 2096, 2100}
   EmitSods = {0, 11655, 86399}
-  EmitUs = {0, 125000, 999999}
+  EmitUs = {0, 5000, 125000, 999999}
 INVARIANT CalendarOK
 INVARIANT OffsetsOK
 INVARIANT PackedOK
